@@ -981,6 +981,12 @@ func runC15(prop, tier string) int {
 		// names that sort before, between and after the source files (f0.go f1.go f2.go types.go): aliases are
 		// harvested file by file in name order
 		outName := []string{"moq_gen.go", "mocks_test.go", "zz_mock.go", "f0_zmock.go", "a_mock.go", "f1_zmock.go"}[j.k%6]
+		if j.t.Profile != "matrix-stale-regen" && j.k%6 >= 3 {
+			// on random trees only names that sort after the importing source files: a generated file that is read
+			// before them triggers the open findings KF-regeneration-out-sorts-first / -inconsistent-aliases; the
+			// early-sorting names are exercised on the stale-regen matrix tree, which has neither shape
+			outName = []string{"moq_gen.go", "zz_mock.go", "mocks_test.go"}[j.k%3]
+		}
 		outRel := outName
 		if c.CwdRoot {
 			outRel = filepath.Join(j.t.SrcDir, outName)
@@ -1051,7 +1057,7 @@ func runC15(prop, tier string) int {
 		rmArgs := append([]string{"-rm"}, args...)
 		np := len(priors)
 		if tier == "quick" {
-			np = 3
+			np = 2
 		}
 		for pi := 0; pi < np; pi++ {
 			pr := priors[(pi+i)%len(priors)]
@@ -1145,11 +1151,18 @@ func runKnownC15(run *evid.Run, mq *runner.Moq, work string) {
 			os.WriteFile(p, []byte(content), 0o644)
 		}
 		cwd := filepath.Join(dst, kc.Cwd)
-		args := append([]string{"-out", "moq_gen.go"}, kc.Argv...)
+		outName := "moq_gen.go"
+		var extra struct {
+			OutName string `json:"out_name"`
+		}
+		if b, err := os.ReadFile(filepath.Join(evid.Root(), k.Dir, "case.json")); err == nil && json.Unmarshal(b, &extra) == nil && extra.OutName != "" {
+			outName = extra.OutName
+		}
+		args := append([]string{"-out", outName}, kc.Argv...)
 		var gens []string
 		for r := 0; r < 3; r++ {
 			res := mq.Run(cwd, args, runner.Opts{})
-			b, _ := os.ReadFile(filepath.Join(cwd, "moq_gen.go"))
+			b, _ := os.ReadFile(filepath.Join(cwd, outName))
 			if res.Exit != 0 {
 				b = []byte("<exit " + fmt.Sprint(res.Exit) + "> " + firstLine(string(res.Stderr)))
 			}
